@@ -7,6 +7,7 @@ import (
 	"sort"
 	"strconv"
 	"strings"
+	"unicode/utf8"
 
 	"github.com/remieven/ysgo"
 	"github.com/remieven/ysgo/markup"
@@ -228,6 +229,17 @@ func (h *hostRunner) state() string {
 	return "|log:" + h.takeLog() + "|v:" + obs.Vars(h.storer.GetValues()) + "|vis:" + obs.Counts(snap.VisitedNodes)
 }
 
+// tooBig: a string variable has grown past 500 characters (<<set $s += $s>> in a jump loop doubles it every round);
+// both sides stop stepping such a runner, every observation prints the whole store.
+func (h *hostRunner) tooBig() bool {
+	for _, v := range h.storer.GetValues() {
+		if v.String != nil && utf8.RuneCountInString(*v.String) > 500 {
+			return true
+		}
+	}
+	return false
+}
+
 func snapObs(s *ysgo.Snapshot) string {
 	return "SNAP|" + obs.Esc(s.CurrentNode) + "|v:" + obs.Vars(s.Variables) + "|vis:" + obs.Counts(s.VisitedNodes)
 }
@@ -296,7 +308,7 @@ func Run(c *sexp.S, out *Out) {
 				out.Put("NORUNNER")
 				continue
 			}
-			if r.ends >= 3 {
+			if r.ends >= 3 || r.tooBig() {
 				out.Put("SKIP")
 				continue
 			}
